@@ -483,6 +483,8 @@ impl<'a> EbpfVmMbuff<'a> {
         let stack_usage = self.stack_usage.as_ref();
         #[cfg(all(rbpf_verif, feature = "std"))]
         crate::verif::exec_begin(
+            "interp",
+            None,
             self.prog,
             mem,
             mbuff,
@@ -624,7 +626,19 @@ impl<'a> EbpfVmMbuff<'a> {
         // The last two arguments are not used in this function. They would be used if there was a
         // need to indicate to the JIT at which offset in the mbuff mem_ptr and mem_ptr + mem.len()
         // should be stored; this is what happens with struct EbpfVmFixedMbuff.
-        unsafe {
+        #[cfg(all(rbpf_verif, feature = "std"))]
+        crate::verif::exec_begin(
+            "jit",
+            None,
+            self.prog,
+            mem,
+            mbuff,
+            &mut self.helpers.keys().copied(),
+            &mut self.allowed_memory.iter().map(|r| (r.start, r.end)),
+            &mut self.stack_usage.iter().flat_map(|u| u.entries()),
+            self.stack_verifier.has_calculator(),
+        );
+        let res = unsafe {
             match &self.jit {
                 Some(jit) => Ok(jit.get_prog()(
                     mbuff.as_ptr() as *mut u8,
@@ -636,7 +650,10 @@ impl<'a> EbpfVmMbuff<'a> {
                 )),
                 None => Err(Error::other("Error: program has not been JIT-compiled")),
             }
-        }
+        };
+        #[cfg(all(rbpf_verif, feature = "std"))]
+        crate::verif::exec_end(&res);
+        res
     }
 
     /// Compile the loaded program using the Cranelift JIT.
@@ -735,7 +752,19 @@ impl<'a> EbpfVmMbuff<'a> {
         // The last two arguments are not used in this function. They would be used if there was a
         // need to indicate to the JIT at which offset in the mbuff mem_ptr and mem_ptr + mem.len()
         // should be stored; this is what happens with struct EbpfVmFixedMbuff.
-        match &self.cranelift_prog {
+        #[cfg(all(rbpf_verif, feature = "std"))]
+        crate::verif::exec_begin(
+            "cl",
+            None,
+            self.prog,
+            mem,
+            mbuff,
+            &mut self.helpers.keys().copied(),
+            &mut self.allowed_memory.iter().map(|r| (r.start, r.end)),
+            &mut self.stack_usage.iter().flat_map(|u| u.entries()),
+            self.stack_verifier.has_calculator(),
+        );
+        let res = match &self.cranelift_prog {
             Some(prog) => {
                 Ok(prog.execute(mem_ptr, mem.len(), mbuff.as_ptr() as *mut u8, mbuff.len()))
             }
@@ -743,7 +772,10 @@ impl<'a> EbpfVmMbuff<'a> {
                 ErrorKind::Other,
                 "Error: program has not been compiled with cranelift",
             )),
-        }
+        };
+        #[cfg(all(rbpf_verif, feature = "std"))]
+        crate::verif::exec_end(&res);
+        res
     }
 }
 
@@ -1243,7 +1275,19 @@ impl<'a> EbpfVmFixedMbuff<'a> {
             _ => mem.as_ptr() as *mut u8,
         };
 
-        unsafe {
+        #[cfg(all(rbpf_verif, feature = "std"))]
+        crate::verif::exec_begin(
+            "jit",
+            Some((self.mbuff.data_offset, self.mbuff.data_end_offset)),
+            self.parent.prog,
+            mem,
+            &self.mbuff.buffer,
+            &mut self.parent.helpers.keys().copied(),
+            &mut self.parent.allowed_memory.iter().map(|r| (r.start, r.end)),
+            &mut self.parent.stack_usage.iter().flat_map(|u| u.entries()),
+            self.parent.stack_verifier.has_calculator(),
+        );
+        let res = unsafe {
             match &self.parent.jit {
                 Some(jit) => Ok(jit.get_prog()(
                     self.mbuff.buffer.as_ptr() as *mut u8,
@@ -1255,7 +1299,10 @@ impl<'a> EbpfVmFixedMbuff<'a> {
                 )),
                 None => Err(Error::other("Error: program has not been JIT-compiled")),
             }
-        }
+        };
+        #[cfg(all(rbpf_verif, feature = "std"))]
+        crate::verif::exec_end(&res);
+        res
     }
 
     /// Compile the loaded program using the Cranelift JIT.
@@ -1344,6 +1391,18 @@ impl<'a> EbpfVmFixedMbuff<'a> {
             _ => mem.as_ptr() as *mut u8,
         };
 
+        #[cfg(all(rbpf_verif, feature = "std"))]
+        crate::verif::exec_begin(
+            "cl",
+            Some((self.mbuff.data_offset, self.mbuff.data_end_offset)),
+            self.parent.prog,
+            mem,
+            &self.mbuff.buffer,
+            &mut self.parent.helpers.keys().copied(),
+            &mut self.parent.allowed_memory.iter().map(|r| (r.start, r.end)),
+            &mut self.parent.stack_usage.iter().flat_map(|u| u.entries()),
+            self.parent.stack_verifier.has_calculator(),
+        );
         let l = self.mbuff.buffer.len();
         // Can this ever happen? Probably not, should be ensured at mbuff creation.
         if self.mbuff.data_offset + 8 > l || self.mbuff.data_end_offset + 8 > l {
@@ -1359,7 +1418,7 @@ impl<'a> EbpfVmFixedMbuff<'a> {
             mem.as_ptr() as u64 + mem.len() as u64,
         );
 
-        match &self.parent.cranelift_prog {
+        let res = match &self.parent.cranelift_prog {
             Some(prog) => Ok(prog.execute(
                 mem_ptr,
                 mem.len(),
@@ -1370,7 +1429,10 @@ impl<'a> EbpfVmFixedMbuff<'a> {
                 ErrorKind::Other,
                 "Error: program has not been compiled with cranelift",
             )),
-        }
+        };
+        #[cfg(all(rbpf_verif, feature = "std"))]
+        crate::verif::exec_end(&res);
+        res
     }
 }
 
